@@ -26,7 +26,7 @@ MANIFEST = {
 THEOREMS = {
     "C14": ["Rot.C14_index_invariant", "Rot.C14_index_sequence", "Rot.C14_index_write", "Rot.C14_index_exactly_one_file",
             "Rot.C14_index_backup_bound", "Rot.C14_index_backup_bound_run", "Rot.C14_index_backup_bound_after_rotation",
-            "Rot.C14_index_no_clobber",
+            "Rot.C14_index_no_clobber", "Rot.C14_index_no_loss_without_overwrite", "Rot.C14_index_write_keeps_all_within_backup",
             "Rot.C14_index_append_restart_recovers", "Rot.C14_limit", "Rot.C14_unrelated_untouched",
             "Rot.C14_any_scheme_write", "Rot.C14_dated_run_partial", "Rot.C14_dated_no_clobber_partial",
             "Rot.C14_dated_restart_partial", "Rot.monoSfx_of_sorted", "Rot.rotate_generic", "Rot.chain_generic",
@@ -37,10 +37,11 @@ THEOREMS = {
     "C15": ["Rot.C15_grid", "Rot.C15_grid_least", "Rot.C15_first_point", "Rot.C15_separates", "Rot.C15_shares",
             "Rot.C15_suffix_of_opening_instant", "Rot.C15_composes_with_C14", "Rot.C15_F9_record_anchored_breaks_grid",
             "Rot.advance_loop", "Rot.gridInv_step",
+            "Rot.C15_separates_on_schedule", "Rot.C15_not_due_on_schedule", "Rot.pre_nil_of_pos",
             "Obligations.rot_time_extraction_complete", "Obligations.rot_time_facts_hold", "Obligations.rot_advances_from_schedule",
             "Obligations.C15_extracted"],
 }
-MODULES = {"C14": ["QuillModel.Props.C14"], "C15": ["QuillModel.Props.C15"]}
+MODULES = {"C14": ["QuillModel.Props.C14", "QuillModel.Props.C15Schedule"], "C15": ["QuillModel.Props.C15", "QuillModel.Props.C15Schedule"]}
 OBLIG = {"C14": ["QuillModel.Obligations.RotSize"], "C15": ["QuillModel.Obligations.RotTime"]}
 
 C14_ORACLES = ("dup-id", "torn", "not-in-cur", "order", "not-suffix", "over-limit", "backup-bound", "backup-shrink")
